@@ -31,7 +31,7 @@ def demo():
     crate = 'fe2o3-amqp' if ('fe2o3_amqp::' in txt or 'fe2o3_amqp ' in txt or 'fe2o3_amqp_types' in txt) else 'serde_amqp'
     sh('cp %s %s/tests/seed_demo.rs' % (src, crate))
     out = ''
-    for feats in (('--features acceptor,transaction,scram', '') if 'acceptor' in txt else ('', '--features acceptor,transaction')):
+    for feats in (('--features acceptor,transaction,scram', '') if ('acceptor' in txt or 'scram' in txt) else ('', '--features acceptor,transaction')):
         cmd = 'RUSTFLAGS="--cfg fe2o3_amqp_verif" CARGO_TARGET_DIR=%s/target/demo cargo test --offline -j12 -p %s %s --test seed_demo -- --test-threads=1 2>&1' % (W, crate, feats)
         r = sh(cmd, timeout=3000)
         out = r.stdout[-3000:]
